@@ -13,9 +13,9 @@ UNIT = {
          'clause': 'the range of the node designates exactly the statement, mnemonic through last operand, on one line',
          'tier': 'quick'},
         {'id': 'ranges_n.lints', 'recipe': ['loc-search'], 'props': ['C09'], 'kind': 'bounded', 'timeout': 600,
-         'bound': '51 program layouts (the 17 programs of unit symm_n, plain, with a header, with a comment after every statement): 228 register diagnostics',
+         'bound': '69 program layouts (the 23 programs of unit symm_n, plain, with a header, with a comment after every statement); a program in which every instruction of a region gets a diagnostic (one of them rewritten by a pass); three two-file inputs with undefined / duplicate labels, 8 runs each',
          'clause': 'every diagnostic lies on one line inside the file; a use-type diagnostic (use after call, use before assignment) designates a register '
-                   'the instruction reads, a definition-type diagnostic (unused value, lost / overwritten saved register, write to zero) the register it writes',
+                   'the instruction reads, a definition-type diagnostic (unused value, lost / overwritten saved register, write to zero) the register it writes; a diagnostic that names labels designates one of them, in the file it names; a diagnostic given for every instruction of a region lands once on each',
          'tier': 'quick'},
     ],
 }
